@@ -18,6 +18,9 @@
    the class of seeded change C05-5).  Handlers of per-tour features run before the cross-tour ones in every round (in the code
    MultiTripState precedes SharedResourceState inside one CombinedFeatureState; other features may follow - their handlers are
    idempotent refreshes of other keys, so the order against them is not observable).
+   Part 1 also has GoalContext::accept_route_state over a goal that holds a CombinedFeatureState
+     (feature_combinator.rs :: CombinedFeatureState::accept_route_state): since /repo 05d96ed the parts' handlers run inside the
+     caller's clear / unset bracket; before (finding C05-F2) it was a nested accept_route_state_with_states (`nested = true`).
    Part 2 is the concrete shared-resource feature over tours of simple activities; the cached vector `available_resources`
    (None everywhere except at the first activity of a reload interval) is represented by its entries at the interval starts,
    in interval order - exactly what SharedResourceConstraint::evaluate_activity can read.
@@ -110,20 +113,33 @@ Fixpoint accept_solution_loop (fs : list feature) (xfs : list xfeature) (edits :
 (* ---- the goal's list of feature states: a plain state, or a CombinedFeatureState over several states ---- *)
 Inductive entry := EOne (f : feature) | ECombined (gs : list feature) (xs : list xfeature).
 
-(* CombinedFeatureState::accept_route_state IS accept_route_state_with_states(&self.states, route_ctx): the nested call tests
-   the stale flag (set: the outer call has just cleared the state through state_mut), clears the WHOLE route state again,
-   runs the handlers of its own states and unsets the flag *)
-Definition entry_route (e : entry) (r : rctx) : rctx :=
+(* CombinedFeatureState::accept_route_state since /repo 05d96ed: the route-level handlers of its own states, inside the
+   caller's clear / unset bracket *)
+Definition combined_route (gs : list feature) (xs : list xfeature) (r : rctx) : rctx :=
+  fold_left (fun acc xf => x_prevent xf acc) xs
+            (fold_left (fun acc f => if f_on_route f then refresh tour job value f acc else acc) gs r).
+
+(* `nested` = the code BEFORE 05d96ed (finding C05-F2, regression mutant C05-10): CombinedFeatureState::accept_route_state WAS
+   accept_route_state_with_states(&self.states, route_ctx): the nested call tests the stale flag (set: the outer call has just
+   cleared the state through state_mut), clears the WHOLE route state again, runs its own handlers and unsets the flag *)
+Definition entry_route (nested : bool) (e : entry) (r : rctx) : rctx :=
   match e with
   | EOne f => if f_on_route f then refresh tour job value f r else r
-  | ECombined gs xs => accept_route_state_x gs xs r
+  | ECombined gs xs => if nested then accept_route_state_x gs xs r else combined_route gs xs r
   end.
 
 (* GoalContext::accept_route_state over such a list *)
-Definition goal_accept_route_state (es : list entry) (r : rctx) : rctx :=
+Definition goal_accept_route_state (nested : bool) (es : list entry) (r : rctx) : rctx :=
   if rc_stale r then
-    unset (fold_left (fun acc e => entry_route e acc) es (mkRctx (rc_tour r) (fun _ => None) true))
+    unset (fold_left (fun acc e => entry_route nested e acc) es (mkRctx (rc_tour r) (fun _ => None) true))
   else r.
+
+(* the per-tour features of a goal, in handler order *)
+Definition flat_fs (es : list entry) : list feature :=
+  flat_map (fun e => match e with EOne f => [f] | ECombined gs _ => gs end) es.
+(* the keys the handlers of a goal write, in handler order *)
+Definition entry_keys (es : list entry) : list nat :=
+  flat_map (fun e => match e with EOne f => [f_key f] | ECombined gs xs => map f_key gs ++ map xf_key xs end) es.
 End ProtocolX.
 
 Arguments mkXF {tour value}.
@@ -272,7 +288,7 @@ Definition shared_feature (scope : xscope) : xfeature (list sact) xval :=
 Definition shared_table : list (feature (list sact) Z xval) := [intervals_feature].
 (* the code as it is: every tour is written *)
 Definition shared_shipped : list (xfeature (list sact) xval) := [shared_feature XAll].
-(* "skip not modified tours" (seeded change C05-5, mutant C05-7) *)
+(* "skip not modified tours" (seeded change C05-5) *)
 Definition shared_stale_only : list (xfeature (list sact) xval) := [shared_feature XStaleOnly].
 
 Definition no_edits : list srctx -> option (list srctx) := fun _ => None.
